@@ -8,6 +8,7 @@ CONSTANTS
   FirstWriteKeeps = TRUE
   HookEditsOld = FALSE
   LendsOld = FALSE
+  MergeFiltersSrc = FALSE
   InitKinds = {"absent", "present"}
   NCases = 0
   MinOps = 1
